@@ -18,9 +18,11 @@ RULE = ("A real Zeroconf with 1..3 registered services (sharing or not sharing a
         "announcement so answers land in the immediate, aggregation (<=500 ms) or protected (1 s) queue. The wire trace of the host "
         "is decoded by the independent parser. (a) exactly three goodbye datagrams in [U, U+250 ms] each with TTL-0 PTR, SRV, TXT "
         "and (iff the host name is not shared with a remaining service) A/AAAA/NSEC; (b) after the third goodbye no datagram "
-        "carries any of those records with TTL>0, observed for 5 s. Distinct = (queue involved, query kind, offset bucket, host "
+        "carries any of those records with TTL>0, observed for 5 s. One run in eight is a 'flap': a service unregistered 0..460 ms "
+        "after it was registered (its own announcements still pending) while the same name is registered again 0..600 ms later as "
+        "a different ServiceInfo; the withdrawn SRV/TXT must not reappear after their goodbyes. Distinct = (queue involved, query kind, offset bucket, host "
         "shared, withdraw API) classes.")
-ASSUMPTIONS = ["the unregister is issued after the registration's own announcement task finished (quantifier: timing relative to incoming queries)"]
+ASSUMPTIONS = ["outside the flap runs the unregister is issued after the registration's own announcement task finished (quantifier: timing relative to incoming queries)"]
 
 
 def floors(tier):
@@ -263,15 +265,101 @@ def classify_queue(sc: Dict[str, Any]) -> str:
     return "+".join(sorted(kinds))
 
 
+def run_flap(res: Result, seed: int) -> None:
+    """A service unregistered while its own announcements are still going out, and the same instance name registered again at
+    once as a different ServiceInfo (other port / TXT): the withdrawn SRV and TXT records - different records from the
+    successor's - must not be announced again after their three goodbyes, although an announcement of the first
+    registration is still pending and the name is (again) present in the registry."""
+    import asyncio
+    rng = random.Random(seed)
+    res.evaluations += 1
+    d = rng.choice([0.0, 50.0, 100.0, 150.0, 200.0, 230.0, 300.0, 440.0, 460.0])      # register ... unregister
+    e_ = rng.choice([0.0, 1.0, 10.0, 100.0, 130.0, 200.0, 260.0, 600.0])             # unregister ... register again
+    layout = rng.choice(["single", "split"])
+    T = "_http._tcp.local."
+    old = Svc(T, "flap." + T, "flap-host.local.", 8080, b"\x03a=1", [b"\x0a\x00\x00\x05"], [], 120, 4500)
+    new = Svc(T, "flap." + T, "flap-host.local.", 9090, b"\x03a=2", [b"\x0a\x00\x00\x05"], [], 120, 4500)
+    desc = {"flap": True, "register_to_unregister_ms": d, "unregister_to_register_ms": e_, "layout": layout}
+
+    def viol(monitor: str, kind: str, detail: str, **sig: Any) -> None:
+        res.violation(monitor, kind, detail, dict(sig, api="flap"), {"seed": seed, "flap": True, "scenario": desc})
+
+    out: Dict[str, Any] = {}
+    with simnet.Sim(seed & 0xFFFF) as sim:
+        async def main():
+            host = sim.net.add_host("H", "10.0.0.1", "fe80::1" if layout == "split" else None, layout=layout)
+            azc = await sim.start_host(host)
+            zc = azc.zeroconf
+            await sim.sleep_ms(500)
+            info_old = R.make_info(old)
+            await zc.async_register_service(info_old, cooperating_responders=True)      # announcements at +0, +225, +450 ms
+            await sim.sleep_ms(d)
+            out["U"] = sim.now_ms()
+
+            async def again() -> None:
+                await sim.sleep_ms(e_)
+                t = await zc.async_register_service(R.make_info(new), cooperating_responders=True)
+                await t
+            fut = asyncio.ensure_future(again())
+            task = await zc.async_unregister_service(info_old)
+            await task
+            await fut
+            await sim.sleep_ms(3000)
+            await azc.async_close()
+
+        try:
+            sim.run(main())
+        except Exception as e:
+            viol("c08.goodbye_complete", "exception", "exception during flap scenario: %r\n%s" % (e, tb()), exc_type=type(e).__name__)
+            return
+        if sim.net.escapes:
+            viol("c08.goodbye_complete", "loop_exception", repr(sim.net.escapes[0])[:800])
+        U = out["U"]
+        sender_fds = sorted({e["fd"] for e in sim.net.trace if e["mcast"]})
+        for fd in sender_fds:
+            res.mon("c08.goodbye_complete")
+            entries = [e for e in sim.net.trace if e["fd"] == fd and e["mcast"] and e["t"] >= U - 1e-6]
+            byes = []
+            for e in entries:
+                m = wire.parse(e["data"], strict=True)
+                zero = {R.ident_of_wire(r) for r in m.answers + m.additionals if r.ttl == 0}
+                if old.srv() in zero or old.txt() in zero:
+                    byes.append(e)
+                    if {old.ptr(), old.srv(), old.txt()} - zero:
+                        viol("c08.goodbye_complete", "goodbye_incomplete", "flap: goodbye lacks %r" % (sorted({old.ptr(), old.srv(), old.txt()} - zero, key=repr)[:2],))
+                if len(byes) == 3:
+                    break
+            if len(byes) != 3:
+                viol("c08.goodbye_complete", "goodbye_count", "flap: %d goodbyes for the withdrawn registration (expected 3)" % len(byes), count=len(byes))
+                continue
+            res.mon("c08.no_resurrection")
+            for e in entries:
+                if e["i"] <= byes[2]["i"]:
+                    continue
+                m = wire.parse(e["data"], strict=True)
+                for r in m.answers + m.additionals:
+                    ident = R.ident_of_wire(r)
+                    if r.ttl > 0 and ident in (old.srv(), old.txt()):
+                        viol("c08.no_resurrection", "record_sent_after_goodbye", "flap (unregister %.0f ms after register, re-register %.0f ms later): withdrawn %r sent "
+                             "with ttl %d %.0f ms after its third goodbye" % (d, e_, ident, r.ttl, e["t"] - byes[2]["t"]), kind_of_record=ident[0], channel="mcast")
+        res.cls("flap", "d=%d" % d, "e=%d" % e_, layout)
+
+
 def run_shard(spec):
     res = Result()
     rng = rng_for("c08", spec["seed"], spec["shard"])
-    for _ in range(spec["per"]):
-        run_scenario(res, rng.randrange(1 << 30))
+    for i in range(spec["per"]):
+        if i % 8 == 7:
+            run_flap(res, rng.randrange(1 << 30))
+        else:
+            run_scenario(res, rng.randrange(1 << 30))
     return res
 
 
 def replay(blob):
     res = Result()
-    run_scenario(res, blob["seed"])
+    if blob.get("flap"):
+        run_flap(res, blob["seed"])
+    else:
+        run_scenario(res, blob["seed"])
     return res
